@@ -258,3 +258,67 @@ Proof.
     + destruct (qltb (fst a) (fst b)) eqn:E; [|reflexivity]. cbn. apply qltb_iff, H3, qltb_iff, E.
     + destruct (Qeq_bool (fst a) (fst b)) eqn:E; [|reflexivity]. cbn. apply Qeq_bool_iff, H4, Qeq_bool_iff, E.
 Qed.
+
+(* ---------- (8) acquisition values, weak direction only (used where the predicted std is exactly 0 at some candidates:
+   EI / PI are 0 there, so strictness cannot be asked; what must hold: a candidate with a lower (better) predicted mean and
+   at least as much uncertainty never gets a larger (worse) acquisition value) ---------- *)
+Definition acq_weak_pair (a b : Q * Q * Q) : bool :=
+  let '(ma, sa, va) := a in let '(mb, sb, vb) := b in
+  implb (Qle_bool ma mb && Qle_bool sb sa) (Qle_bool va vb).
+Definition ok_acq_weak (l : list (Q * Q * Q)) : bool := all_pairs acq_weak_pair l.
+Definition AcqWeak (l : list (Q * Q * Q)) : Prop :=
+  forall ma sa va mb sb vb, In (ma, sa, va) l -> In (mb, sb, vb) l -> ma <= mb -> sb <= sa -> va <= vb.
+
+Lemma ok_acq_weak_spec l : ok_acq_weak l = true <-> AcqWeak l.
+Proof.
+  unfold ok_acq_weak, AcqWeak. rewrite all_pairs_spec. split.
+  - intros H ma sa va mb sb vb Ha Hb Hm Hs. specialize (H _ _ Ha Hb). cbn in H.
+    apply Qle_bool_iff in Hm, Hs. rewrite Hm, Hs in H. cbn in H. apply Qle_bool_iff. exact H.
+  - intros H [[ma sa] va] [[mb sb] vb] Ha Hb. cbn.
+    destruct (Qle_bool ma mb) eqn:E1; [|reflexivity]. destruct (Qle_bool sb sa) eqn:E2; [|reflexivity]. cbn.
+    apply Qle_bool_iff. apply (H _ _ _ _ _ _ Ha Hb); apply Qle_bool_iff; assumption.
+Qed.
+
+(* ---------- (9) a one-shot batch: the selected candidates are distinct and no candidate outside the batch has a larger
+   objective than one inside ---------- *)
+Fixpoint nodup_nat (l : list nat) : bool :=
+  match l with [] => true | x :: t => negb (existsb (Nat.eqb x) t) && nodup_nat t end.
+Definition ok_topk (objs : list Q) (n : nat) (sel : list nat) : bool :=
+  Nat.eqb (length sel) (Nat.min n (length objs)) && nodup_nat sel && forallb (fun i => Nat.ltb i (length objs)) sel
+  && forallb (fun i => forallb (fun j => existsb (Nat.eqb j) sel || Qle_bool (nth j objs 0) (nth i objs 0)) (seq 0 (length objs))) sel.
+
+Definition TopK (objs : list Q) (n : nat) (sel : list nat) : Prop :=
+  length sel = Nat.min n (length objs) /\ NoDup sel /\ (forall i, In i sel -> (i < length objs)%nat)
+  /\ forall i j, In i sel -> (j < length objs)%nat -> ~ In j sel -> nth j objs 0 <= nth i objs 0.
+
+Lemma existsb_eqb_In j l : existsb (Nat.eqb j) l = true <-> In j l.
+Proof.
+  rewrite existsb_exists. split.
+  - intros [x [Hx E]]. apply Nat.eqb_eq in E. subst. exact Hx.
+  - intros H. exists j. split; [exact H|apply Nat.eqb_refl].
+Qed.
+
+Lemma nodup_nat_spec l : nodup_nat l = true <-> NoDup l.
+Proof.
+  induction l as [|x t IH]; cbn [nodup_nat]; [split; [constructor|reflexivity]|].
+  rewrite andb_true_iff, negb_true_iff, IH. split.
+  - intros [H1 H2]. constructor; [|exact H2]. intros Hin. apply existsb_eqb_In in Hin. congruence.
+  - intros H. inversion H as [|? ? H1 H2]; subst. split; [|exact H2].
+    destruct (existsb (Nat.eqb x) t) eqn:E; [apply existsb_eqb_In in E; contradiction|reflexivity].
+Qed.
+
+Lemma ok_topk_spec objs n sel : ok_topk objs n sel = true <-> TopK objs n sel.
+Proof.
+  unfold ok_topk, TopK. rewrite !andb_true_iff, Nat.eqb_eq, nodup_nat_spec, !forallb_forall. split.
+  - intros [[[H1 H2] H3] H4]. repeat split; try assumption.
+    + intros i Hi. apply Nat.ltb_lt, H3, Hi.
+    + intros i j Hi Hj Hn. specialize (H4 i Hi). rewrite forallb_forall in H4.
+      specialize (H4 j (proj2 (in_seq _ _ _) (conj (Nat.le_0_l j) Hj))). apply orb_true_iff in H4 as [H4|H4].
+      * apply existsb_eqb_In in H4. contradiction.
+      * apply Qle_bool_iff. exact H4.
+  - intros (H1 & H2 & H3 & H4). repeat split; try assumption.
+    + intros i Hi. apply Nat.ltb_lt, H3, Hi.
+    + intros i Hi. apply forallb_forall. intros j Hj. apply in_seq in Hj. apply orb_true_iff.
+      destruct (existsb (Nat.eqb j) sel) eqn:E; [left; reflexivity|right]. apply Qle_bool_iff. apply H4; [exact Hi|lia|].
+      intros Hin. apply existsb_eqb_In in Hin. congruence.
+Qed.
